@@ -1,11 +1,15 @@
 #!/bin/sh
-# applies every seeded change in turn to /repo's working tree, runs the quick check of its property, undoes it
+# applies every seeded change in turn to a scratch worktree of /repo (never to /repo itself), runs
+# the quick check of its property against it through VERIF_REPO, and removes the worktree.
+# Evidence files written by these runs describe patched trees: re-run the real checks afterwards.
 cd /verif
+wt=${VERIF_SCRATCH:-/tmp/verif-mutants-$$}
+git -C /repo worktree add -q --detach "$wt" HEAD || exit 2
 for d in /verif/seeded/*/; do
   id=$(basename "$d"); prop=${id%%-*}
-  if ! git -C /repo apply --check "$d/patch.diff" 2>/dev/null; then echo "$id: patch no longer applies"; continue; fi
-  git -C /repo apply "$d/patch.diff"
-  out=$(./check "$prop" quick 2>&1 | grep -v '^KNOWN-FINDING' | tail -1)
-  git -C /repo checkout -- . ; git -C /repo clean -fdq pkg 2>/dev/null
+  git -C "$wt" checkout -q -- .
+  if ! git -C "$wt" apply "$d/patch.diff" 2>/dev/null; then echo "$id: patch no longer applies"; continue; fi
+  out=$(VERIF_REPO="$wt" ./check "$prop" quick 2>&1 | grep -v '^KNOWN-FINDING' | tail -1)
   echo "$id: $out"
 done
+git -C /repo worktree remove --force "$wt"
